@@ -489,7 +489,7 @@ def run_case(case, stats):
                 stats.count("probe.arith_" + o)
                 if type(q) is not type(p) or int.__index__(q) != na:
                     raise Violation("arithmetic", "type_or_value", f"{p!r} {o} {dv!r} ({dk}) -> {q!r} of type {type(q).__name__}, expected {type(p).__name__} {na}")
-                if 0 < na <= maxaddr and a != 0:
+                if 0 < na <= maxaddr:  # also from a parsed null pointer: the derived pointer is on the same stream
                     check_deref(q, f, f["depth"], na, f"({sl['f']}[{sl['j']}] {o} {d})")
             elif k == "attr":
                 if f["t"] == "T" and f["depth"] == 1 and a != 0:
